@@ -23,9 +23,15 @@ MCFieldSet(c) ==
 PlainVar(var) ==
   /\ var.style = "tuple" /\ Len(var.fields) = 1
   /\ var.fields[1].ty = "P" /\ ~var.fields[1].deref /\ ~var.fields[1].dmut
-MCAdmissible(c) ==
-  /\ DerefWellDesignated(c)
+MCBoundOK(c) ==
+  /\ NVariants(c) >= 1
+  /\ \A v \in 1..NVariants(c) : NFields(c, v) >= 1
   /\ NVariants(c) > 1 => \E v \in 1..NVariants(c) : PlainVar(c.variants[v])
+  /\ ~HasTrait(c, "DerefMut") => \A v \in 1..NVariants(c) : DMutMarked(c, v) = {}
+\* a missing or duplicated marker among several fields
+MCSemOK(c) == DerefWellDesignated(c)
+MCAdmissible(c) == MCBoundOK(c) /\ MCSemOK(c)
+DoSealBad == SealBad(MCBoundOK, MCSemOK) /\ UNCHANGED run
 
 Init == BuildInit /\ run = NoRun
 
@@ -58,7 +64,7 @@ Return ==
   /\ run' = NoRun
   /\ UNCHANGED <<cfg, phase>>
 
-Next == DoStart \/ DoAddVariant \/ DoAddField \/ DoSeal \/ DoBegin \/ Step \/ Return
+Next == DoStart \/ DoAddVariant \/ DoAddField \/ DoSeal \/ DoSealBad \/ DoBegin \/ Step \/ Return
 Spec == Init /\ [][Next]_vars
 
 Finished == run # NoRun /\ run.done
